@@ -1270,6 +1270,115 @@ func runC20(e *Env) error {
 				}
 			}
 		}
+		// E. the FIRST lookups of fresh (type, name) pairs made by several goroutines at once: each gets the member, not a
+		// half-built cache entry (types are generated, so every batch has pairs no lookup has touched yet)
+		{
+			fresh := 0
+			for tries := 0; fresh < 6 && tries < 200; tries++ {
+				sp := c20GenSpec(e.Rng, 2)
+				t, _ := c20BuildType(sp)
+				if t == nil || seenTypes[t] || t.NumField() == 0 {
+					continue
+				}
+				seenTypes[t] = true
+				fresh++
+				p := reflect.New(t)
+				c20Fill(p.Elem(), e.Rng, 0)
+				o := &c20Obj{label: fmt.Sprintf("cold%d.%d", b, fresh), val: p.Elem().Interface(), rt: t, spec: sp.String(), vi: -1}
+				var fieldNames []string
+				for i := 0; i < t.NumField() && len(fieldNames) < 4; i++ {
+					if f := t.Field(i); f.IsExported() && !f.Anonymous && c20PlainName.MatchString(f.Name) {
+						fieldNames = append(fieldNames, f.Name)
+					}
+				}
+				if len(fieldNames) == 0 {
+					continue
+				}
+				var tpl strings.Builder
+				for _, n := range fieldNames {
+					tpl.WriteString("{{ x." + n + " }}\x1e")
+				}
+				eng := twig.New()
+				if err := eng.RegisterString("t", tpl.String()); err != nil {
+					continue
+				}
+				outs := make([]string, 8)
+				c02Barrier(len(outs), func(g int) {
+					defer func() {
+						if pn := recover(); pn != nil {
+							outs[g] = fmt.Sprintf("<panic %v>", pn)
+						}
+					}()
+					out, err := eng.Render("t", map[string]interface{}{"x": o.val})
+					if err != nil {
+						out = "<error " + err.Error() + ">"
+					}
+					outs[g] = out
+				})
+				// the serial answer, now that the cache is warm, checked against reflection by the ordinary probe
+				ref, _ := eng.Render("t", map[string]interface{}{"x": o.val})
+				r.Hit("concurrent-first-lookups")
+				for g, out := range outs {
+					if out != ref {
+						r.Violate(Violation{Key: "attr-history-dependent", What: fmt.Sprintf("8 goroutines read %v of a fresh struct type at once: goroutine %d got %q, a later serial render gives %q", fieldNames, g, truncate(out, 120), truncate(ref, 120)),
+							Broken: "theorem C20_lookup_independent_of_history (first lookups in parallel; implementation-only oracle)",
+							Replay: map[string]any{"kind": "cold-attr", "layout": sp.String(), "fields": fieldNames, "got": out, "want": ref}})
+						break
+					}
+				}
+				for _, n := range fieldNames {
+					if !c.check(o, n, false, "after-concurrent-first") {
+						break
+					}
+				}
+			}
+		}
+		// E'. the same with wide types (100 string fields read by one template, 12 goroutines): a long run of first lookups
+		for round := 0; round < 12 && !r.Full(); round++ {
+			fields := make([]reflect.StructField, 100)
+			for i := range fields {
+				fields[i] = reflect.StructField{Name: fmt.Sprintf("W%dx%dx%dF%03d", e.Seed, b, round, i), Type: reflect.TypeOf("")}
+			}
+			v := reflect.New(reflect.StructOf(fields)).Elem()
+			var tpl, want strings.Builder
+			for i := range fields {
+				v.Field(i).SetString(fmt.Sprintf("v%03d", i))
+				tpl.WriteString("{{ x." + fields[i].Name + " }},")
+				want.WriteString(fmt.Sprintf("v%03d,", i))
+			}
+			eng := twig.New()
+			if err := eng.RegisterString("t", tpl.String()); err != nil {
+				break
+			}
+			var x interface{} = v.Interface()
+			if round%2 == 1 {
+				x = v.Addr().Interface()
+			}
+			outs := make([]string, 12)
+			c02Barrier(len(outs), func(g int) {
+				defer func() {
+					if pn := recover(); pn != nil {
+						outs[g] = fmt.Sprintf("<panic %v>", pn)
+					}
+				}()
+				out, err := eng.Render("t", map[string]interface{}{"x": x})
+				if err != nil {
+					out = "<error " + err.Error() + ">"
+				}
+				outs[g] = out
+			})
+			r.Hit("concurrent-first-lookups-wide")
+			r.Seen(fmt.Sprintf("cold-wide:%d:%d", b, round), true)
+			for g, out := range outs {
+				if out != want.String() {
+					k := firstDiff(out, want.String())
+					r.Violate(Violation{Key: "attr-history-dependent", What: fmt.Sprintf("12 goroutines read the 100 fields of a fresh struct type at once: goroutine %d got …%q… where …%q… is right (offset %d)", g, truncate(out[min(k, len(out)):], 24), truncate(want.String()[min(k, want.Len()):], 24), k),
+						Broken: "theorem C20_lookup_independent_of_history (first lookups in parallel; implementation-only oracle against the field values)",
+						Replay: map[string]any{"kind": "cold-attr-wide", "round": round, "goroutine": g, "got": truncate(out, 400), "want": truncate(want.String(), 400)}})
+					break
+				}
+			}
+		}
 		// model replay of this batch's history, with a random eviction oracle
 		oracles := []map[string]any{nil, {"kind": "oldest", "k": 100}, {"kind": "newest", "k": 1 + e.Rng.Intn(200)},
 			{"kind": "mod", "k": 1 + e.Rng.Intn(9)}, {"kind": "all", "k": 0}}
